@@ -59,6 +59,7 @@ def gen_cases(tier: str, seed: int) -> List[Dict[str, Any]]:
                 c["fn"] = r.choice(["layer_norm", "rms_norm"])
                 c["gain"] = r.random() < 0.5
                 c["eps"] = r.choice([1e-5, 1e-5, 1e-6, 1e-3])
+                c["split"] = r.choice([None, None, 2, 4, 8])  # normalised width spread over TWO trailing dims (split, width // split)
             cases.append(c)
     return cases
 
@@ -204,10 +205,17 @@ def run_norms(case, ctx) -> None:
     x = torch.randn((rows, n), generator=gen, dtype=torch.float32).requires_grad_(True)
     up = torch.randn((rows, n), generator=gen, dtype=torch.float32)
     gain = torch.ones(n, requires_grad=True) if case["gain"] else None
+    ns = (n,)
+    if case.get("split") and n % case["split"] == 0 and n // case["split"] >= 2:
+        ns = (case["split"], n // case["split"])
+        x = x.detach().reshape((rows,) + ns).requires_grad_(True)
+        up = up.reshape((rows,) + ns)
+        gain = torch.ones(ns, requires_grad=True) if case["gain"] else None
+        ctx.count("form:multi-dim-normalized_shape")
     if case["fn"] == "layer_norm":
-        y = U.layer_norm(x, (n,), gain, torch.zeros(n, requires_grad=True) if case["gain"] else None, case["eps"])
+        y = U.layer_norm(x, ns, gain, torch.zeros(ns, requires_grad=True) if case["gain"] else None, case["eps"])
     else:
-        y = U.rms_norm(x, (n,), gain, case["eps"])
+        y = U.rms_norm(x, ns, gain, case["eps"])
     y.backward(up)
     ctx.count("band:norms", 2)
     d = dict(width=n, fn=case["fn"], gain=case["gain"], eps=case["eps"])
